@@ -187,6 +187,9 @@ type ReprCase struct {
 	Kind string  `json:"kind"`
 	L    string  `json:"l"`
 	Src  *PtCase `json:"src,omitempty"` // natural kinds: the point the producing operation starts from
+	// nat2-* kinds: the library's own Add / Subtract of two operands each given in a chosen representation
+	Recv *ElemCase `json:"receiver,omitempty"`
+	Arg  *ElemCase `json:"argument,omitempty"`
 }
 
 func ReprToCase(r gen.Repr) ReprCase { return ReprCase{Kind: r.Kind, L: fmt.Sprintf("%x", r.L)} }
@@ -206,6 +209,18 @@ func MkElemCase(pv gen.PV, r gen.Repr) ElemCase { return ElemCase{PtToCase(pv.P,
 // the intended one, otherwise the case is unusable and reported as a harness-level inconclusive).
 func (ec ElemCase) Build() *secp256k1.Element {
 	p := ec.P.Pt()
+
+	switch ec.R.Kind {
+	case "nat2-add":
+		return ec.R.Recv.Build().Add(ec.R.Arg.Build())
+	case "nat2-sub":
+		return ec.R.Recv.Build().Subtract(ec.R.Arg.Build())
+	case "nat2-double":
+		return ec.R.Recv.Build().Double()
+	case "nat2-negate":
+		return ec.R.Recv.Build().Negate()
+	}
+
 	if len(ec.R.Kind) < 4 || ec.R.Kind[:4] != "nat-" {
 		return Elem(p, ec.R.Repr())
 	}
@@ -279,6 +294,29 @@ func MkNatElemCase(src gen.PV, i int) ElemCase {
 	sc := PtToCase(q, src.Tag)
 
 	return ElemCase{P: PtToCase(p, kind+"("+src.Tag+")"), R: ReprCase{Kind: kind, L: "1", Src: &sc}}
+}
+
+// MkOpElemCase is the element op(recv, arg) (op in add, sub, double, negate) as the library's own operation leaves it, the
+// operands in the given representations. Like the constructors it is not second-guessed by the harness.
+func MkOpElemCase(op string, recv, arg ElemCase) ElemCase {
+	a, b := recv.P.Pt(), arg.P.Pt()
+
+	var v oracle.Pt
+
+	switch op {
+	case "add":
+		v = oracle.Add(a, b)
+	case "sub":
+		v = oracle.Sub(a, b)
+	case "double":
+		v = oracle.Dbl(a)
+	case "negate":
+		v = oracle.Neg(a)
+	default:
+		panic("harness: unknown operation " + op)
+	}
+
+	return ElemCase{P: PtToCase(v, op+"("+recv.P.Tag+","+arg.P.Tag+")"), R: ReprCase{Kind: "nat2-" + op, L: "1", Recv: &recv, Arg: &arg}}
 }
 
 // MkMulKElemCase is the element [k]src as the library's own Multiply leaves it.
